@@ -1,5 +1,6 @@
 (** C15: virtual time is monotone and uniform within a run (Layer R). *)
 From Coq Require Import ZArith List.
+Import ListNotations.
 From Stk Require Import R.Syntax R.Rt R.Mon R.C15Proofs.
 
 (* For every program, fuel and deferrer kind: the trace of a terminated execution of the model satisfies
@@ -11,6 +12,6 @@ Print Assumptions C15_time.
 
 (* hypotheses satisfiable by a non-trivial program *)
 Example C15_example :
-  exists t, exec DGlobal 200 [TNew 0; TDo [ADefer (Clo 1 0 0 nil [ANow]); AIdle (Clo 2 0 0 nil [ANow])]; TRun 5 false; TRun 9 true] = Done t
+  exists t, exec DGlobal 200 [TNew 0; TDo [ADefer (Clo 1 0 0 [] [ANow]); AIdle (Clo 2 0 0 [] [ANow])]; TRun 5 false; TRun 9 true] = Done t
             /\ In (ERun 2%N 5%Z QIdle) t /\ In (ENum TAG_NOW 5%Z) t.
 Proof. exact C15_nontrivial. Qed.
